@@ -246,8 +246,15 @@ func (w *EvalRuleCondition) Do(ctx *Context, loc *Location) {
 
 	for _, bs := range qr.Bss {
 		for _, action := range w.Parent.Rule.Actions {
+			// Each action gets its own bindings.  Actions can
+			// run concurrently, and executing an action can
+			// write to its bindings (see 'maybeCopyEvent').
+			own := make(map[string]interface{}, len(bs))
+			for k, v := range bs {
+				own[k] = v
+			}
 			child := &ExecRuleAction{
-				Bindings: bs,
+				Bindings: own,
 				Act:      Action(action),
 				Parent:   w,
 			}
